@@ -36,6 +36,17 @@ type side struct {
 	poison  bool
 }
 
+// sameProvider says whether two observations show behaviourally identical providers.
+func (s side) sameProvider(o side) bool {
+	if s.buildOK != o.buildOK {
+		return false
+	}
+	if !s.buildOK {
+		return true
+	}
+	return s.ran == o.ran && len(diffTables(s.table, o.table)) == 0
+}
+
 func (e *env) observeSide(c godi.Collection) side {
 	s := side{views: e.observeViews(c).String()}
 	b := e.buildAndObserve(c)
@@ -292,16 +303,41 @@ func runTree(tree []*Node, stats map[string]int64) (fs []finding, nontrivial boo
 		report("panic", "build-or-resolve", "Build or a resolution panicked")
 		return fs, false
 	}
+	if !sa.sameProvider(sb) {
+		// Build may be non-deterministic for reasons that have nothing to do with modules
+		// (creation order of independent singletons): a difference between the twins counts
+		// only if no outcome of repeated builds of A equals any outcome of repeated builds of B
+		as, bs := []side{sa}, []side{sb}
+		for i := 0; i < 9; i++ {
+			as, bs = append(as, e.observeSide(A)), append(bs, e.observeSide(B))
+		}
+		explained := false
+		for _, x := range as {
+			for _, y := range bs {
+				if x.poison || y.poison {
+					report("panic", "build-or-resolve", "Build or a resolution panicked")
+					return fs, false
+				}
+				if x.sameProvider(y) {
+					explained = true
+				}
+			}
+		}
+		if explained {
+			stats["twin_difference_within_build_nondeterminism"]++
+			sb = sa
+		}
+	}
 	if sa.buildOK != sb.buildOK {
-		report("provider-differs", "build-class", fmt.Sprintf("Build ok through modules: %v, through direct calls: %v", sa.buildOK, sb.buildOK))
+		report("provider-differs", "build-class", fmt.Sprintf("Build ok through modules: %v, through direct calls: %v (10 builds each)", sa.buildOK, sb.buildOK))
 	} else if sa.buildOK {
 		stats["twin_builds_ok"]++
 		stats["twin_resolutions"] += int64(len(sa.table))
 		if sa.ran != sb.ran {
-			report("provider-differs", "constructors-run-at-build", fmt.Sprintf("modules: %s direct: %s", sa.ran, sb.ran))
+			report("provider-differs", "constructors-run-at-build", fmt.Sprintf("modules: %s direct: %s (no agreement in 10 builds each)", sa.ran, sb.ran))
 		}
 		if ds := diffTables(sb.table, sa.table); len(ds) > 0 {
-			report("provider-differs", "resolution", "direct -> modules: "+strings.Join(ds, "; "))
+			report("provider-differs", "resolution", "direct -> modules (no agreement in 10 builds each): "+strings.Join(ds, "; "))
 		}
 	} else {
 		stats["twin_builds_fail_both"]++
@@ -330,6 +366,7 @@ func init() {
 		Assumptions: []string{
 			"twins only: defects that affect direct registration and module registration identically (C17's) do not surface here",
 			"ToSlice is compared as a multiset of (type, key, group, lifetime, constructor)",
+			"Build of one and the same collection can be non-deterministic (creation order of independent singletons); a difference between the twins' providers counts only if 10 builds of each side never agree",
 			"the cause counts as reachable when every typed error / sentinel reachable from the direct call's error (AlreadyRegistered, Validation, Registration, TypeMismatch, ErrConstructorNil, the harness sentinel) is reachable from the AddModules error",
 		},
 		NeedEvents:    []string{"trees", "trees_failing", "module_error_chains_checked", "module_error_levels_checked", "twin_builds_ok", "ctor_exit_events", "causes_checked"},
